@@ -17,8 +17,8 @@ CONSTANTS
  Exts = {FALSE}
  KeepSlots = FALSE
  TarUnverified = FALSE
- MTs = {TRUE, FALSE}
- DigestHdrs = {"absent", "echo", "served", "servedother", "garbage"}
+ MTs = {TRUE}
+ DigestHdrs = {"served"}
 INIT GInit
 NEXT GNext
 INVARIANTS Emit
